@@ -181,6 +181,37 @@ pub fn fe_push_from_buf<B: Buffer>(s: &[u8]) -> FeTrace {
     FeTrace { name: "Decoder::from_buf(used buffer)+push_byte+finalize", events, pos: Some(pos), finalize_n: None }
 }
 
+/// Push decoder obtained from `Default::default()`.
+pub fn fe_push_default<B: Buffer>(s: &[u8]) -> FeTrace {
+    let mut events = vec![];
+    let mut pos = vec![];
+    let r = guarded(|| {
+        let mut d: Decoder<B> = Default::default();
+        for (i, &x) in s.iter().enumerate() {
+            match d.push_byte(x) {
+                Ok(None) => {}
+                Ok(Some(m)) => {
+                    events.push(Ev::Msg(m.to_vec()));
+                    pos.push(i + 1);
+                }
+                Err(e) => {
+                    events.push(Ev::Dec(e));
+                    pos.push(i + 1);
+                }
+            }
+        }
+        if let Some(e) = d.finalize() {
+            events.push(Ev::Dec(e));
+            pos.push(s.len());
+        }
+    });
+    if let Err(p) = r {
+        events.push(Ev::Panic(p));
+        pos.push(s.len());
+    }
+    FeTrace { name: "Decoder::default()+push_byte+finalize", events, pos: Some(pos), finalize_n: None }
+}
+
 /// `transport::decode` (always `Vec`).
 pub fn fe_decode(s: &[u8]) -> FeTrace {
     let mut events = vec![];
@@ -436,6 +467,7 @@ impl<'a> BufVisitor for RunFes<'a> {
             v.push(fe_reader_iter_ref::<B>(s));
             v.push(fe_reader_cursor::<B>(s));
             v.push(fe_reader_onebyte::<B>(s));
+            v.push(fe_push_default::<B>(s));
             for w in 0..CHUNK_PATTERNS.len() {
                 v.push(fe_reader_chunked::<B>(s, w));
             }
